@@ -64,6 +64,15 @@ func Structured(r *rand.Rand, depth int) string {
 	if depth <= 0 || r.IntN(5) == 0 {
 		return atoms[r.IntN(len(atoms))]
 	}
+	if r.IntN(14) == 0 {
+		// a node attribute is rewritten first (alias by name, anchor, tag that contradicts the kind, style), then
+		// the node is traversed, compared, exploded or encoded in the same expression
+		tgt := []string{".a", ".b", ".", ".[0]", ".a.b", ".[]", ".a[0]", "..", ".c"}[r.IntN(9)]
+		attr := []string{`alias = "x"`, `alias = "nope"`, `alias |= "a"`, `anchor = "x"`, `anchor = ""`, `tag = "!!map"`, `tag = "!!seq"`, `tag = "!!int"`,
+			`tag = "!!null"`, `tag = "!!merge"`, `tag = "!!binary"`, `tag = "!!timestamp"`, `tag = ""`, `style = "flow"`, `style = "literal"`, `style = "nope"`,
+			`line_comment = "\n"`, `head_comment = "#"`, `head_comment = "\n\n"`, `foot_comment = "a\n#b"`, `line_comment |= .`, `key = "k"`}[r.IntN(22)]
+		return "(" + tgt + " " + attr + ") | " + Structured(r, depth-1)
+	}
 	switch r.IntN(12) {
 	case 0, 1, 2, 3:
 		op := binOps[r.IntN(len(binOps))]
